@@ -45,6 +45,18 @@ class SourceIndex:
         if path is None:
             return None
         idx = self._index(path)
+        if f.__name__ == '<lambda>':
+            # a lambda object: the ast.Lambda on its line, wrapped as a one-return function
+            tree = ast.parse(self.texts[path], path)
+            want = f.__code__.co_varnames[:f.__code__.co_argcount]
+            for n in ast.walk(tree):
+                if isinstance(n, ast.Lambda) and n.lineno == f.__code__.co_firstlineno \
+                        and tuple(a.arg for a in n.args.args) == tuple(want):
+                    fd = ast.FunctionDef(name='<lambda>', args=n.args,
+                                         body=[ast.Return(value=n.body, lineno=n.lineno, col_offset=0)],
+                                         decorator_list=[], lineno=n.lineno, col_offset=0)
+                    return ast.fix_missing_locations(fd)
+            return None
         node = idx.get(f.__qualname__)
         if node is None:
             # fall back on line number
